@@ -68,6 +68,9 @@ fn bound1(proto: &Proto) -> Vec<Variation> {
     for k in 0..proto.n_msgs() {
         out.push(Variation { fault_at: Some(k), tag: "after-failed-call", ..d.clone() });
     }
+    // the raw-split query (a &mut self call) made by both parties before the first message and after every
+    // handshake call: each answer is the reference Split() of that moment and nothing later changes
+    out.push(Variation { tag: "raw-split-everywhere", ..d.clone() });
     out
 }
 
@@ -84,6 +87,18 @@ fn cfg_of(proto: &Proto, v: &Variation, backend: Backend) -> Config {
 fn ops_of(proto: &Proto, v: &Variation) -> Vec<Op> {
     let dirs = [Side::I, Side::R, Side::I, Side::I, Side::R, Side::R, Side::I, Side::R];
     let mut ops = sess::full_session_ops(proto, &v.hs_plens, v.mode, &dirs[..v.t_plens.len().min(8)], &v.t_plens);
+    if v.tag == "raw-split-everywhere" {
+        let n = 2 * proto.n_msgs();
+        let mut with = vec![Op::RawSplit { side: Side::I }, Op::RawSplit { side: Side::R }];
+        for (k, op) in ops.into_iter().enumerate() {
+            with.push(op);
+            if k < n {
+                with.push(Op::RawSplit { side: Side::I });
+                with.push(Op::RawSplit { side: Side::R });
+            }
+        }
+        ops = with;
+    }
     if let Some(k) = v.fault_at {
         use crate::exec::{Alter, Cap, Msg};
         let w = sess::writer(k);
